@@ -137,7 +137,7 @@ func C12(r *core.Run) int {
 			n = K
 		}
 		if !r.Thorough() && p.Case.Family != "mapfat" && p.Idx%3 != 0 {
-			n = 1
+			n = 2 // the second run goes into a directory with foreign files
 		}
 		for k := 0; k < n; k++ {
 			cj = append(cj, cliJob{p, k})
@@ -153,6 +153,19 @@ func C12(r *core.Run) int {
 			for j := range ch {
 				p := j.p
 				p.Out = filepath.Join(r.Scratch, "cli", fmt.Sprintf("%s-%d", filepath.Base(p.Out), j.k))
+				where := fmt.Sprintf("cli-process-%d", j.k)
+				if j.k == 1 {
+					// the same invocation into a directory that already holds foreign files
+					// (a user file importing packages under the names log / fmt, a test file)
+					where = "cli-into-directory-with-foreign-files"
+					_ = os.MkdirAll(p.Out, 0o755)
+					for f, content := range c19UserFiles {
+						if strings.Contains(f, "/") {
+							continue
+						}
+						_ = os.WriteFile(filepath.Join(p.Out, f), []byte(content), 0o644)
+					}
+				}
 				out, err := core.RunCmd(r.Scratch, time.Minute, nil, cli, p.CLIArgs()...)
 				if err != nil {
 					r.Report(core.Violation{Case: p.Case.ID, Class: "nondeterministic-verdict", Message: "CLI failed where the in-process run succeeded: " + core.Trunc(out, 300), Spec: string(p.Case.SpecBytes()), Flags: p.Case.Flags})
@@ -160,8 +173,11 @@ func C12(r *core.Run) int {
 				}
 				es, _ := os.ReadDir(p.Out)
 				for _, e := range es {
+					if _, foreign := c19UserFiles[e.Name()]; foreign {
+						continue
+					}
 					s := fileSum(filepath.Join(p.Out, e.Name()))
-					add(p.Case.ID, e.Name(), s, fmt.Sprintf("cli-process-%d", j.k))
+					add(p.Case.ID, e.Name(), s, where)
 					remember(p.Case.ID, e.Name(), s, filepath.Join(p.Out, e.Name()))
 				}
 				mu.Lock()
